@@ -477,6 +477,7 @@ __result = __json.dumps({call_node.as_string()})
 
     process = subprocess.Popen(
         [sys.executable, "-c", code],
+        stdin=subprocess.DEVNULL,
         stdout=subprocess.PIPE,
         stderr=subprocess.PIPE,
     )
